@@ -391,7 +391,27 @@ func firstLines(s string, n int) string {
 	return strings.Join(l, "\n")
 }
 
+// FirstCalls is the menu of the fresh-process call-order check: scenarios run one goroutine after the other.
+func FirstCalls() []fw.Call {
+	var out []fw.Call
+	for _, name := range []string{"same-key-twice", "two-keys-stored-3", "upper-and-gomod", "nosumdb-next-to-normal", "growing-log-strict-partials-h1"} {
+		name := name
+		out = append(out, fw.Call{Name: name, F: func() string {
+			sc, _ := scen.Find(name)
+			env, res := scen.Exec(sc, func(f func()) { f() }, func() {}, nil)
+			msg, class := scen.Check(sc, env, res)
+			var rs []string
+			for _, x := range res {
+				rs = append(rs, fmt.Sprintf("%q err=%v", x.Lines, x.Err))
+			}
+			return msg + "|" + class + "|" + strings.Join(rs, ";")
+		}})
+	}
+	return out
+}
+
 func Run(r *fw.Run) {
+	defer fw.FirstCallOrders(r, r.ID, FirstCalls(), nil)
 	scs := scen.All()
 	cfgs := []Config{{Gran: "ops", Mode: "deviations", Bound: 2, Only: nil}, {Gran: "sync", Mode: "deviations", Bound: 1, Only: nil}, {Gran: "ops", Mode: "preemptions", Bound: 1, Only: Small}, {Gran: "sync", Mode: "preemptions", Bound: 1, Only: Small}, {Gran: "ops", Mode: "deviations", Bound: 3, Only: Compact}}
 	perJob, total := 60*time.Second, 150*time.Second
